@@ -12,8 +12,10 @@
      - a successful DeleteTimeRange(chs, [a,b)) leaves, for every channel in chs and every
        range, exactly the previously read (stamp, value) pairs whose stamp is outside [a,b);
        every other channel reads exactly as before;
-     - a failed DeleteTimeRange leaves each named channel either unchanged or exactly
-       reduced (no third outcome), other channels unchanged;
+     - DeleteTimeRange may fail only for a malformed request (inverted or zero range, unknown
+       channel) or through the index guard (a channel indexed by a named index channel owns a
+       domain overlapping [a,b)); a failed call leaves each named channel
+       either unchanged or exactly reduced (no third outcome), other channels unchanged;
      - DeleteTimeRange naming an index channel while a channel it indexes (not itself named)
        has a sample with stamp in [a,b) must fail and leave the index channel unchanged;
      - GC and reopen change no read.
@@ -32,7 +34,9 @@ Definition sobs := (Z * Z * list Z)%type.                 (* series: start, end,
 Definition robs := list sobs.                              (* one read *)
 Definition pobs := (Z * Z * Z * Z * Z)%type.              (* start, end, file, offset, size *)
 Definition cobs := (Z * list pobs * list (Z * Z) * list robs)%type.  (* key, ptrs, files, reads *)
-Definition oobs := (bool * Z * list cobs)%type.           (* failed?, db size, channels *)
+Definition oobs := (Z * Z * list cobs)%type.              (* error class, db size, channels *)
+(* error class: 0 = no error, 1 = refused by the index-channel guard, 2 = any other error *)
+Definition failed_of (o : oobs) : bool := negb (fst (fst o) =? 0).
 
 Definition case_t : Type :=
   (Z * Z * list chdecl * list (Z * Z) * list (op * oobs))%type.
@@ -50,7 +54,7 @@ Definition obs_chan (d : db) (ranges : list (Z * Z)) (kc : Z * chan) : cobs :=
 Definition db_size (d : db) : Z :=
   fold_right (fun kc acc => sum_sizes (c_ptrs (snd kc)) + acc) 0 d.
 Definition obs_db (d : db) (ranges : list (Z * Z)) (e : option err) : oobs :=
-  (match e with Some _ => true | None => false end, db_size d, map (obs_chan d ranges) d).
+  (match e with Some EConflict => 1 | Some _ => 2 | None => 0 end, db_size d, map (obs_chan d ranges) d).
 
 Fixpoint model_trace (fx : bool) (g : gcfg) (ranges : list (Z * Z)) (d : db) (ops : list op) : list oobs :=
   match ops with
@@ -68,7 +72,7 @@ Definition enc_cobs (c : cobs) : list Z :=
   k :: enc_list enc_pobs ps ++ enc_list (fun f => [fst f; snd f]) fs ++
        enc_list (enc_list enc_sobs) rs.
 Definition enc_oobs (o : oobs) : list Z :=
-  let '(e, sz, cs) := o in (if e then 1 else 0) :: sz :: enc_list enc_cobs cs.
+  let '(e, sz, cs) := o in e :: sz :: enc_list enc_cobs cs.
 
 Fixpoint zlist_eqb (a b : list Z) : bool :=
   match a, b with
@@ -197,8 +201,32 @@ Definition dependant_in_range (chs : list chdecl) (named : list Z) (o0 : oobs) (
     | [] => false
     end) (keys_of chs).
 
+(* a dependant of index channel [k] owns a domain overlapping [a,b) (the series of the
+   whole-time-line read are the channel's non-empty domains); for a dependant named in the
+   same call the domains left after its own deletion count (data channels are deleted first) *)
+Definition dependant_domain_overlaps (chs : list chdecl) (named : list Z) (o0 o1 : oobs) (a b k : Z) : bool :=
+  existsb (fun k' =>
+    negb (k' =? k) && (index_of chs k' =? k) &&
+    match reads_of (if memz k' named then o1 else o0) k' with
+    | r0 :: _ => existsb (fun s : sobs => let '(s0, e0, _) := s in
+                   if a =? b then (s0 <=? a) && (a <? e0) else (Z.max s0 a <? Z.min e0 b)) r0
+    | [] => false
+    end) (keys_of chs).
+
+(* the only reasons for which DeleteTimeRange may refuse: the index guard (error class 1; a
+   channel indexed by a named index channel owns a domain overlapping [a,b) — the guard is
+   stated on domains by the implementation, on samples by the property: both readings are
+   accepted where they differ), or a malformed request (class 2: inverted or zero range,
+   unknown channel) *)
+Definition may_fail (chs : list chdecl) (named : list Z) (a b : Z) (o0 o1 : oobs) : bool :=
+  if fst (fst o1) =? 1 then
+    existsb (fun k => is_index chs k && dependant_domain_overlaps chs named o0 o1 a b k) named
+  else
+    (b <? a) || ((a =? 0) && (b =? 0)) || existsb (fun k => negb (memz k (keys_of chs))) named.
+
 Definition ok_delete (chs : list chdecl) (named : list Z) (a b : Z) (o0 o1 : oobs) : bool :=
-  let failed := fst (fst o1) in
+  let failed := failed_of o1 in
+  (if failed then may_fail chs named a b o0 o1 else true) &&
   forallb (fun k =>
     if memz k named then
       (if failed then chan_same o0 o1 k || chan_reduced chs o0 o1 a b k
@@ -213,7 +241,7 @@ Definition ok_same (chs : list chdecl) (o0 o1 : oobs) : bool :=
 Definition ok_step (chs : list chdecl) (o0 : oobs) (o : op) (o1 : oobs) : bool :=
   match o with
   | ODelete named a b => ok_delete chs named a b o0 o1
-  | OGC => negb (fst (fst o1)) && ok_same chs o0 o1
+  | OGC => negb (failed_of o1) && ok_same chs o0 o1
   | OReopen => ok_same chs o0 o1
   | OWrite _ _ => true
   end.
@@ -226,7 +254,7 @@ Fixpoint ok_steps (chs : list chdecl) (o0 : oobs) (steps : list (op * oobs)) : b
 
 (* the observation of the freshly created database: nothing readable *)
 Definition empty_obs (chs : list chdecl) (ranges : list (Z * Z)) : oobs :=
-  (false, 0, map (fun k => (k, [], [], map (fun _ => []) ranges)) (keys_of chs)).
+  (0, 0, map (fun k => (k, [], [], map (fun _ => []) ranges)) (keys_of chs)).
 
 Definition ok_C04 (c : case_t) : bool :=
   let '(cap, thr, chs, ranges, steps) := c in
